@@ -1552,9 +1552,10 @@ mod top {
             return "replay";
         }
         let mut rng = Rng::new(opts.seed ^ 0x70705f746f70);
-        let (cases, n_ops, extra) = if opts.thorough() { (4000 * opts.scale, 24, 4) } else { (400 * opts.scale, 14, 2) };
-        for _ in 0..cases {
-            run_case(out, &mut rng, base, n_ops, extra);
+        let (cases, n_ops, extra) = if opts.thorough() { (4000 * opts.scale, 24, 4) } else { (600 * opts.scale, 14, 2) };
+        for c in 0..cases {
+            // every fourth history is long (more data files, deeper truncations, more re-opens)
+            run_case(out, &mut rng, base, if c % 4 == 3 { n_ops * 2 + 2 } else { n_ops }, extra);
         }
         "stream top: random histories on the real ckb_freezer::Freezer (real snappy, real packed blocks built with BlockBuilder: 0-2 transactions, compressible and incompressible payloads, optional extension; max_file_size 150..3000 and handle-LRU capacity 2/3/256 through the verif_set_limits hook): freeze of parent-linked stretches with a broken link / a missing block / a header number that is not the height at a random position, thresholds below, at and beyond the served stretch, stop flag before or during the call, sources that serve already frozen heights again; every freeze is interrupted (threshold or stop flag), snapshotted, completed, and the snapshot is cut at sampled (index length, head-file length | missing) pairs between the pre-freeze and the snapshot sizes, re-opened with Freezer::open and frozen again to the same threshold (content compared with the crash-free run); truncate at every edge followed by freezing another branch; re-opens; destructive crashes of the main freezer. Non-trivial iff the case has a data-file rollover inside a freeze and at least one crash fork; distinct by (max, lru, op shape)"
     }
